@@ -231,13 +231,18 @@ func (p *ProjectionParser) makeProjection(s *Projection, q string, proj parse.Fi
 		p.haveFullname = true
 		field := s.addField(s.root, ".fullname")
 		initField(field)
-		makeFilter(extractFull)
-
-		project = func(r *benchfmt.Result, row *[]string) {
+		// Any filter must test the same value we project, with
+		// the more specific keys excluded.
+		ext := func(r *benchfmt.Result) []byte {
 			if p.fullExtractor == nil {
 				p.fullExtractor = newExtractorFullName(p.fullnameKeys)
 			}
-			val := p.fullExtractor(r)
+			return p.fullExtractor(r)
+		}
+		makeFilter(ext)
+
+		project = func(r *benchfmt.Result, row *[]string) {
+			val := ext(r)
 			(*row)[field.idx] = s.intern(val)
 		}
 
